@@ -431,22 +431,33 @@ impl Prop for C43 {
          with a random script of answers (ok, sequence mismatch with an expected value in a TxResponse or in a gRPC \
          status, unparsable mismatch, mempool-cache hit, other codes, transport failure, pending, committed, rejected \
          with sequence and non-sequence codes, evicted, unknown) (after `pending` the client's 1 ms confirmation interval is waited out).  The generator runs the real client while generating so that every answer targets a request that is \
-         actually pending; the model must reproduce every line (sign events with sequence/gas/fee/byte identity, pending \
+         actually pending; S10 size-threshold histories (tags bigK/…): burst histories with K = 9 / 17 / 33 / 65 (thorough also 8 / 16 / 32 / 64 / 129) \
+         concurrent submissions and answer scripts of 2K+60..2K+80 (thorough ..2K+500) steps; the model must reproduce every line (sign events with sequence/gas/fee/byte identity, pending \
          requests, results).  Plus extract_sequence on real and mutated messages.  Non-trivial = every op."
     }
     fn gen_ops(&mut self, rng: &mut Rng, tier: Tier, out: &mut Emitter) {
         let histories = if tier == Tier::Thorough { 1500 } else { 120 };
-        for hno in 0..histories {
+        // S10 size-threshold stress: after the regular histories, burst histories with 9 / 17 / 33 / 65 concurrent
+        // submissions (thorough also 8 / 16 / 32 / 64 / 129) and long answer scripts
+        let big_ks: &[usize] = if tier == Tier::Thorough { &[8, 9, 16, 17, 32, 33, 64, 65, 129] } else { &[9, 17, 33, 65] };
+        let big_histories = if tier == Tier::Thorough { 36 } else { big_ks.len() };
+        for hno in 0..histories + big_histories {
             out.op("new", "new", true);
             let w = World::new();
-            let k = rng.usize(1, 6);
+            let big = if hno >= histories { big_ks[(hno - histories) % big_ks.len()] } else { 0 };
+            let k = if big > 0 { big } else { rng.usize(1, 6) };
             let hostile = rng.chance(1, 3);
             let mut next_sub = 0u64;
-            let steps = rng.usize(5, if tier == Tier::Thorough { 120 } else { 60 });
+            let steps = if big > 0 {
+                2 * big + rng.usize(60, if tier == Tier::Thorough { 500 } else { 80 })
+            } else {
+                rng.usize(5, if tier == Tier::Thorough { 120 } else { 60 })
+            };
             // during initialisation (latest block + account) only one submission runs in most histories
-            let concurrent_init = hno % 4 == 0;
+            // (big histories: always concurrent, otherwise a failed initialisation of submission 0 ends the history)
+            let concurrent_init = hno % 4 == 0 || big > 0;
             // burst histories: all submissions are started right away, so that most of them queue on the mutex
-            let burst = hno % 3 == 1;
+            let burst = hno % 3 == 1 || big > 0;
             for _ in 0..steps {
                 let pend: Vec<(u64, char)> = w.shared.lock().unwrap().pending.iter().map(|(i, p)| (*i, p.1)).collect();
                 let init_done = w.shared.lock().unwrap().txs.len() > 0;
@@ -483,6 +494,7 @@ impl Prop for C43 {
                 };
                 let tag = line.split(' ').next().unwrap().to_string();
                 let tag = if tag == "ans" { format!("ans/{}", line.split("a=").nth(1).unwrap().split(':').next().unwrap()) } else { tag };
+                let tag = if big > 0 { format!("big{big}/{tag}") } else { tag };
                 out.op(line, &tag, true);
             }
         }
